@@ -202,6 +202,36 @@ func (w *World) checkNamespaceInheritance(P string, sf *storeFacts, pullers []*s
 	}
 	w.check(P, "R10.9", "inheriting function "+H.Name(), H.Pos(), strings.Contains(hDetail, "declare: true") && strings.Contains(hDetail, "list: true"), hDetail)
 
+	// the event loop may call it through a wrapper that does nothing else to the once-per-element discipline: a
+	// function of the package, the only caller, that hands its own element on and calls it on every path
+	for i := 0; i < 2; i++ {
+		sites := w.callersOf(H)
+		if len(sites) != 1 {
+			break
+		}
+		site := sites[0]
+		W := site.Parent()
+		isPuller := false
+		for _, pf := range pullers {
+			if pf == W {
+				isPuller = true
+			}
+		}
+		if isPuller || fnPkgKey(W) != "store" || len(W.Params) == 0 || len(site.Call.Args) == 0 || site.Call.Args[0] != ssa.Value(W.Params[0]) || loopBlocks(W)[site.Block()] {
+			break
+		}
+		every := true
+		allInstrs(W, func(in ssa.Instruction) {
+			if ret, isRet := in.(*ssa.Return); isRet && !(site.Block() == ret.Block() || site.Block().Dominates(ret.Block())) {
+				every = false
+			}
+		})
+		if !every {
+			break
+		}
+		H = W
+	}
+
 	// (b) the event loop
 	for _, fn := range pullers {
 		var pull *ssa.Call
